@@ -1,4 +1,276 @@
 import OsmVerif.Props.C10
 import OsmVerif.Model.IdText
+import OsmVerif.Lemmas.Text
+/-!
+# C10 (text) — the textual form of an id parses back to it; only `kind/ref[:version]` is accepted
+
+Theorems about the hand-written model `Model.IdText` of `String()` / `Parse*ID`
+(tied to the code by the differential stream of `./check C10`), on top of the
+regenerated bit-level model `Gen.Ids`.
+-/
 namespace OsmVerif.Props.C10Text
+open OsmVerif.Gen.Ids OsmVerif.Model.Text OsmVerif.Model.IdText OsmVerif.Props.C10
+
+theorem name_no_slash (k : Kind) : '/' ∉ k.name.toList := by cases k <;> decide
+
+theorem toInt_of_small (x : BitVec 64) (h : x.toNat < 2^63) : x.toInt = (x.toNat : Int) :=
+  BitVec.toInt_eq_toNat_of_lt (by omega)
+
+/-- `%d` of a small non-negative id component, parsed back by `ParseInt`, converted back -/
+theorem show_parse_small (x : BitVec 64) (h : x.toNat < 2^63) :
+    showInt x.toInt = Nat.toDigits 10 x.toNat ∧ parseInt64 (Nat.toDigits 10 x.toNat) = some x.toInt := by
+  rw [toInt_of_small x h]
+  exact ⟨showInt_natCast _, parseInt64_showNat _ h⟩
+
+theorem slash_not_digit : ('/' : Char).isDigit = false := by decide
+theorem colon_not_digit : (':' : Char).isDigit = false := by decide
+
+theorem parseRefVersion_dash (r : BitVec 64) (hr : r.toNat < 2^63) :
+    parseRefVersion (Nat.toDigits 10 r.toNat ++ [':', '-']) = some (r.toInt, 0) := by
+  unfold parseRefVersion
+  have h1 : splitOn ':' (Nat.toDigits 10 r.toNat ++ [':', '-']) = [Nat.toDigits 10 r.toNat, ['-']] := by
+    rw [splitOn_append _ _ _ (sep_not_mem_toDigits _ _ colon_not_digit)]
+    rw [splitOn_of_not_mem _ _ (by decide)]
+  rw [h1]
+  simp [(show_parse_small r hr).2]
+
+theorem parseRefVersion_ver (r v : BitVec 64) (hr : r.toNat < 2^63) (hv : v.toNat < 2^63) :
+    parseRefVersion (Nat.toDigits 10 r.toNat ++ ':' :: Nat.toDigits 10 v.toNat) = some (r.toInt, v.toInt) := by
+  unfold parseRefVersion
+  have h1 : splitOn ':' (Nat.toDigits 10 r.toNat ++ ':' :: Nat.toDigits 10 v.toNat)
+      = [Nat.toDigits 10 r.toNat, Nat.toDigits 10 v.toNat] := by
+    rw [splitOn_append _ _ _ (sep_not_mem_toDigits _ _ colon_not_digit)]
+    rw [splitOn_of_not_mem _ _ (sep_not_mem_toDigits _ _ colon_not_digit)]
+  rw [h1]
+  have hne : Nat.toDigits 10 v.toNat ≠ ['-'] := by
+    obtain ⟨d, ds, hd, hdig⟩ := toDigits_head_isDigit v.toNat
+    rw [hd]; intro e; cases e; revert hdig; decide
+  simp [(show_parse_small r hr).2, (show_parse_small v hv).2, hne]
+
+/-- the text after `kind/` never contains a slash -/
+theorem split_kind (k : Kind) (rest : List Char) (h : '/' ∉ rest) :
+    splitOn '/' (k.name.toList ++ '/' :: rest) = [k.name.toList, rest] := by
+  rw [splitOn_append _ _ _ (name_no_slash k), splitOn_of_not_mem _ _ h]
+
+theorem rest_no_slash_dash (n : Nat) : '/' ∉ Nat.toDigits 10 n ++ [':', '-'] := by
+  simp only [List.mem_append, not_or]
+  exact ⟨sep_not_mem_toDigits _ _ slash_not_digit, by decide⟩
+theorem rest_no_slash_ver (n m : Nat) : '/' ∉ Nat.toDigits 10 n ++ ':' :: Nat.toDigits 10 m := by
+  simp only [List.mem_append, List.mem_cons, not_or]
+  exact ⟨sep_not_mem_toDigits _ _ slash_not_digit, by decide, sep_not_mem_toDigits _ _ slash_not_digit⟩
+
+theorem lt63_of_lt40 {x : BitVec 64} (h : x.toNat < 2^40) : x.toNat < 2^63 := by omega
+theorem lt63_of_lt16 {x : BitVec 64} (h : x.toNat < 2^16) : x.toNat < 2^63 := by omega
+
+/-! ## String ∘ Parse = id -/
+
+/-- `ParseElementID(id.String()) = id` for every node/way/relation element id in range. -/
+theorem parse_show_element (k : Kind) (hk : k.isElement) (r v : BitVec 64)
+    (hr : r.toNat < 2^40) (hv : v.toNat < 2^16) :
+    ∃ s, showElement (layout k r v) = some s ∧ parseElement s = some (layout k r v) := by
+  unfold showElement
+  rw [element_type k hk r v hr, element_ref k r v hr, element_version k r v hv]
+  have hr' := lt63_of_lt40 hr
+  have hv' := lt63_of_lt16 hv
+  by_cases h0 : v = 0#64
+  · subst h0
+    refine ⟨k.name.toList ++ '/' :: (showInt r.toInt ++ [':', '-']), by simp, ?_⟩
+    rw [(show_parse_small r hr').1]
+    unfold parseElement
+    rw [split_kind k _ (rest_no_slash_dash _)]
+    simp only [parseRefVersion_dash r hr', String.ofList_toList, BitVec.ofInt_toInt]
+    rw [type_featureID k r]
+    simp only [hk, if_true]
+    have := feature_to_element k r 0#64 (by decide)
+    simpa using this
+  · refine ⟨k.name.toList ++ '/' :: (showInt r.toInt ++ ':' :: showInt v.toInt), by simp [h0], ?_⟩
+    rw [(show_parse_small r hr').1, (show_parse_small v hv').1]
+    unfold parseElement
+    rw [split_kind k _ (rest_no_slash_ver _ _)]
+    simp only [parseRefVersion_ver r v hr' hv', String.ofList_toList, BitVec.ofInt_toInt]
+    rw [type_featureID k r]
+    simp only [hk, if_true]
+    rw [feature_to_element k r v hv]
+
+/-- the packed object id `Type.objectID` builds for a kind (elements carry a version, bounds no ref) -/
+def objectId (k : Kind) (r v : BitVec 64) : BitVec 64 :=
+  if k.isElement then layout k r v else if k = .bounds then layout k 0#64 0#64 else layout k r 0#64
+
+/-- `ParseObjectID(id.String()) = id` for every object id in range, all seven kinds. -/
+theorem parse_show_object (k : Kind) (r v : BitVec 64) (hr : r.toNat < 2^40) (hv : v.toNat < 2^16) :
+    ∃ s, showObject (objectId k r v) = some s ∧ parseObject s = some (objectId k r v) := by
+  -- reduce to a layout with explicit components
+  obtain ⟨r', v', hr', hv', hid, hobj⟩ :
+      ∃ r' v' : BitVec 64, r'.toNat < 2^40 ∧ v'.toNat < 2^16 ∧ objectId k r v = layout k r' v' ∧
+        Type_objectID k.name r' v' = some (layout k r' v') := by
+    by_cases hk : k.isElement
+    · exact ⟨r, v, hr, hv, by simp [objectId, hk], by rw [type_objectID]; simp [hk]⟩
+    · by_cases hb : k = .bounds
+      · exact ⟨0#64, 0#64, by decide, by decide, by simp [objectId, hb, Kind.isElement], by rw [type_objectID]; simp [hb, Kind.isElement]⟩
+      · exact ⟨r, 0#64, hr, by decide, by simp [objectId, hk, hb], by rw [type_objectID]; simp [hk, hb]⟩
+  rw [hid]
+  unfold showObject
+  rw [object_type k r' v' hr', object_ref k r' v' hr', object_version k r' v' hv']
+  have hr63 := lt63_of_lt40 hr'
+  have hv63 := lt63_of_lt16 hv'
+  by_cases h0 : v' = 0#64
+  · subst h0
+    refine ⟨k.name.toList ++ '/' :: (showInt r'.toInt ++ [':', '-']), by simp, ?_⟩
+    rw [(show_parse_small r' hr63).1]
+    unfold parseObject
+    rw [split_kind k _ (rest_no_slash_dash _)]
+    simp only [parseRefVersion_dash r' hr63, String.ofList_toList, BitVec.ofInt_toInt]
+    simpa using hobj
+  · refine ⟨k.name.toList ++ '/' :: (showInt r'.toInt ++ ':' :: showInt v'.toInt), by simp [h0], ?_⟩
+    rw [(show_parse_small r' hr63).1, (show_parse_small v' hv63).1]
+    unfold parseObject
+    rw [split_kind k _ (rest_no_slash_ver _ _)]
+    simp only [parseRefVersion_ver r' v' hr63 hv63, String.ofList_toList, BitVec.ofInt_toInt]
+    exact hobj
+
+/-- `ParseFeatureID(id.String()) = id` for every node/way/relation feature id in range. -/
+theorem parse_show_feature (k : Kind) (hk : k.isElement) (r : BitVec 64) (hr : r.toNat < 2^40) :
+    parseFeature (showFeature (layout k r 0#64)) = some (layout k r 0#64) := by
+  unfold showFeature
+  have hne : k.name ≠ "" := by cases k <;> decide
+  rw [feature_type k hk r hr, feature_ref k r _ hr]
+  simp only [hne, if_false]
+  have hr' := lt63_of_lt40 hr
+  rw [(show_parse_small r hr').1]
+  unfold parseFeature
+  rw [split_kind k _ (sep_not_mem_toDigits _ _ slash_not_digit)]
+  simp only [(show_parse_small r hr').2, String.ofList_toList, BitVec.ofInt_toInt]
+  rw [type_featureID k r]
+  simp [hk]
+
+/-! ## only the `kind/ref[:version]` shape with a known kind is accepted -/
+
+theorem objectID_known {s : String} {r v x : BitVec 64} (h : Type_objectID s r v = some x) :
+    ∃ k : Kind, s = k.name := by
+  by_cases h1 : s = TypeNode; · exact ⟨.node, h1⟩
+  by_cases h2 : s = TypeWay; · exact ⟨.way, h2⟩
+  by_cases h3 : s = TypeRelation; · exact ⟨.relation, h3⟩
+  by_cases h4 : s = TypeChangeset; · exact ⟨.changeset, h4⟩
+  by_cases h5 : s = TypeNote; · exact ⟨.note, h5⟩
+  by_cases h6 : s = TypeUser; · exact ⟨.user, h6⟩
+  by_cases h7 : s = TypeBounds; · exact ⟨.bounds, h7⟩
+  have := type_objectID_unknown s r v (by intro k; cases k <;> simp [Kind.name, *])
+  rw [this] at h; cases h
+
+theorem featureID_known {s : String} {r x : BitVec 64} (h : Type_FeatureID s r = some x) :
+    ∃ k : Kind, k.isElement ∧ s = k.name := by
+  by_cases h1 : s = TypeNode; · exact ⟨.node, rfl, h1⟩
+  by_cases h2 : s = TypeWay; · exact ⟨.way, rfl, h2⟩
+  by_cases h3 : s = TypeRelation; · exact ⟨.relation, rfl, h3⟩
+  have := type_featureID_unknown s r (by intro k hk; cases k <;> simp_all [Kind.name, Kind.isElement])
+  rw [this] at h; cases h
+
+/-- the accepted `ref[:version]` texts -/
+def IsRefVersion (rest : List Char) : Prop :=
+  IsNumeral rest ∨ ∃ rs vs, rest = rs ++ ':' :: vs ∧ IsNumeral rs ∧ (vs = ['-'] ∨ IsNumeral vs)
+
+theorem parseRefVersion_shape {rest : List Char} {p : Int × Int} (h : parseRefVersion rest = some p) :
+    IsRefVersion rest := by
+  unfold parseRefVersion at h
+  split at h
+  · rename_i r hs
+    have := (splitOn_one hs).1
+    subst this
+    cases hp : parseInt64 rest with
+    | none => simp [hp] at h
+    | some ref => exact Or.inl (parseInt64_numeral hp)
+  · rename_i r v hs
+    have hsp := (splitOn_two hs).1
+    cases hp : parseInt64 r with
+    | none => simp [hp] at h
+    | some ref =>
+      simp only [hp] at h
+      right
+      refine ⟨r, v, hsp, parseInt64_numeral hp, ?_⟩
+      by_cases hv : v = ['-']
+      · exact Or.inl hv
+      · simp only [hv, if_false] at h
+        cases hp2 : parseInt64 v with
+        | none => simp [hp2] at h
+        | some ver => exact Or.inr (parseInt64_numeral hp2)
+  · cases h
+
+theorem ofList_eq_name {l : List Char} {k : Kind} (h : String.ofList l = k.name) : l = k.name.toList := by
+  rw [← h]; simp
+
+/-- `ParseObjectID` succeeds only on `kind/ref[:version|-]` with one of the seven kinds. -/
+theorem parseObject_shape {s : List Char} {x : BitVec 64} (h : parseObject s = some x) :
+    ∃ (k : Kind) (rest : List Char), s = k.name.toList ++ '/' :: rest ∧ IsRefVersion rest := by
+  unfold parseObject at h
+  split at h
+  · rename_i kk rest hs
+    have hsp := (splitOn_two hs).1
+    cases hp : parseRefVersion rest with
+    | none => simp [hp] at h
+    | some p =>
+      simp only [hp] at h
+      obtain ⟨k, hk⟩ := objectID_known h
+      exact ⟨k, rest, by rw [hsp, ofList_eq_name hk], parseRefVersion_shape hp⟩
+  · cases h
+
+/-- `ParseElementID` succeeds only on `kind/ref[:version|-]` with kind node, way or relation. -/
+theorem parseElement_shape {s : List Char} {x : BitVec 64} (h : parseElement s = some x) :
+    ∃ (k : Kind) (rest : List Char), k.isElement ∧ s = k.name.toList ++ '/' :: rest ∧ IsRefVersion rest := by
+  unfold parseElement at h
+  split at h
+  · rename_i kk rest hs
+    have hsp := (splitOn_two hs).1
+    cases hp : parseRefVersion rest with
+    | none => simp [hp] at h
+    | some p =>
+      simp only [hp] at h
+      cases hf : Type_FeatureID (String.ofList kk) (BitVec.ofInt 64 p.1) with
+      | none => simp [hf] at h
+      | some fid =>
+        obtain ⟨k, hke, hk⟩ := featureID_known hf
+        exact ⟨k, rest, hke, by rw [hsp, ofList_eq_name hk], parseRefVersion_shape hp⟩
+  · cases h
+
+/-- `ParseFeatureID` succeeds only on `kind/ref` with kind node, way or relation. -/
+theorem parseFeature_shape {s : List Char} {x : BitVec 64} (h : parseFeature s = some x) :
+    ∃ (k : Kind) (rest : List Char), k.isElement ∧ s = k.name.toList ++ '/' :: rest ∧ IsNumeral rest := by
+  unfold parseFeature at h
+  split at h
+  · rename_i kk rest hs
+    have hsp := (splitOn_two hs).1
+    cases hp : parseInt64 rest with
+    | none => simp [hp] at h
+    | some ref =>
+      simp only [hp] at h
+      obtain ⟨k, hke, hk⟩ := featureID_known h
+      exact ⟨k, rest, hke, by rw [hsp, ofList_eq_name hk], parseInt64_numeral hp⟩
+  · cases h
+
+/-- accepted text yields exactly the packed id of its parts (no "wrong id") -/
+theorem parseFeature_value {s : List Char} {x : BitVec 64} (h : parseFeature s = some x) :
+    ∃ (k : Kind) (rest : List Char) (ref : Int), k.isElement ∧ s = k.name.toList ++ '/' :: rest ∧
+      parseInt64 rest = some ref ∧ x = layout k (BitVec.ofInt 64 ref) 0#64 := by
+  unfold parseFeature at h
+  split at h
+  · rename_i kk rest hs
+    have hsp := (splitOn_two hs).1
+    cases hp : parseInt64 rest with
+    | none => simp [hp] at h
+    | some ref =>
+      simp only [hp] at h
+      obtain ⟨k, hke, hk⟩ := featureID_known h
+      refine ⟨k, rest, ref, hke, by rw [hsp, ofList_eq_name hk], hp, ?_⟩
+      rw [hk, type_featureID] at h
+      simp only [hke, if_true, Option.some.injEq] at h
+      exact h.symm
+  · cases h
+
+/-! ## non-vacuity -/
+example : parseObject "node/5:3".toList = some (layout .node 5#64 3#64) := by decide
+example : parseObject "user/7:-".toList = some (layout .user 7#64 0#64) := by decide
+example : parseElement "changeset/5:3".toList = none := by decide
+example : parseObject "node/5:3:1".toList = none := by decide
+example : parseObject "nodes/5".toList = none := by decide
+example : showElement (layout .way 12#64 0#64) = some "way/12:-".toList := by decide
+
 end OsmVerif.Props.C10Text
